@@ -168,4 +168,9 @@ LEASECONC = dict(sub="leaseconc", mode="leaseconc", family="leaseconc", shards=q
                  key_fields=["k", "run", "backend"])
 
 
+LONGPOLL = dict(sub="longpoll", mode="leaseconc", family="longpoll", shards=q(1, 2),
+                args=lambda tier, sd, sh: ["-seed", sd * 1000 + sh, "-reps", 2 if tier == "quick" else 6],
+                key_fields=["k", "backend", "scenario"])
+
+
 TABLE = {"C18": c18, "C01": c01, "C19": c19, "C15": c15, "C07": c07, "C20": c20, "C11": c11, "C06": c06, "C16": c16, "C10": c10, "C08": c08, "C09": c09, "C17": c17}
